@@ -188,7 +188,7 @@ def step (s : DState) : List String → DState × String
   | ["eval", tree] =>
     match decTree tree with
     | some args =>
-      let (o, st) := evalTop s.evCfg (dispatch s.dispCfg) vtBeh args ⟨[], s.ignored0⟩
+      let (o, st) := evalTop s.evCfg (dispatch s.dispCfg) vtBeh args ⟨[], s.ignored0, false⟩
       (s, encOutcome o ++ "\t@\t" ++ encLog st.log ++ "\t" ++ (if st.ignored then "1" else "0"))
     | none => (s, "bad-op")
   | _ => (s, "bad-op")
